@@ -25,6 +25,8 @@
 // freshly made one (or to a composite literal), never copied from another variable; a function that updates its
 // receiver may not take a second value of the same type.  An in-place slice update is accepted only on a variable
 // that is assigned nothing but make(…)/nil/append(itself, …).  append to a re-sliced slice is outside the fragment.
+// A function literal may not update a variable that is also handed to the callee, and a function that calls back
+// may not update its receiver.
 package main
 
 import (
@@ -1880,7 +1882,7 @@ func (c *sctx) call(call *ast.CallExpr, en sEnv) ([]bind, sVal) {
 		case r.sh == ssRules && f.Sel.Name == "Equivalent" && shapes(ssT, ssT):
 			return bs, sBool("(" + r.e + "." + c.t.use("Rules.Equivalent", "equiv") + " " + args[0].e + " " + args[1].e + ")")
 		case r.sh == ssRules && f.Sel.Name == "SameRules" && shapes(ssRules):
-			return bs, sBool("(" + c.t.use("Rules.SameRules", setSameParam+" (a parameter)") [:len(setSameParam)] + " " + r.e + " " + args[0].e + ")")
+			return bs, sBool("(" + c.t.use("Rules.SameRules", setSameParam+" (a parameter)")[:len(setSameParam)] + " " + r.e + " " + args[0].e + ")")
 		case r.sh == ssOrd && f.Sel.Name == "Less" && shapes(ssT, ssT):
 			c.t.use("OrderedRules.Less", "the function under Rules.less")
 			return bs, sBool("(" + r.e + " " + args[0].e + " " + args[1].e + ")")
